@@ -83,9 +83,16 @@ Definition canonical_fields (p : list byte) : option (list rfield) :=
   | None => None
   end.
 
+(* an entry that omits a message value stands for the empty message, which a writer emits only when that
+   is an initialised message (no required fields) *)
 Definition entry_legal (kk vk : fkind) (b : list byte) : bool :=
   match canonical_fields b with
-  | Some flds => forallb (fun f => if rnum f =? 1 then value_legal kk f else if rnum f =? 2 then value_legal vk f else true) flds
+  | Some flds =>
+      forallb (fun f => if rnum f =? 1 then value_legal kk f else if rnum f =? 2 then value_legal vk f else true) flds &&
+      match vk with
+      | FMsg t => existsb (fun f => rnum f =? 2) flds || initialized sc t []
+      | _ => true
+      end
   | None => false
   end.
 
